@@ -84,6 +84,18 @@ Proof.
       destruct (nth_error_inside l i ltac:(lia)) as [v ->]. reflexivity.
 Qed.
 
+(* the write-side twin agrees with list_get on every input (failures included) *)
+Lemma list_get_mut_index_eq m n i : stdlib_list_get_mut_index m n i = stdlib_list_get_index m n i.
+Proof. reflexivity. Qed.
+
+Lemma list_get_mut_spec {A} m (l : list A) i :
+  zlen l <= MAX64 -> in_i64 i ->
+  list_get_mut m l i = match py_index l i with Some v => OVal v | None => OIndexErr end.
+Proof.
+  intros Hl Hi. unfold list_get_mut. rewrite list_get_mut_index_eq.
+  exact (list_get_spec m l i Hl Hi).
+Qed.
+
 Lemma str_char_at_spec {A} m (l : list A) i :
   zlen l <= MAX64 -> in_i64 i ->
   str_char_at m l i = match py_index l i with Some v => OVal v | None => OIndexErr end.
